@@ -1,5 +1,5 @@
 """Rule registry: name -> callable(ctx, prop) -> RuleResult | [RuleResult]."""
-from . import trav, exh, backend, names, fields, compiler, memory, purity, determinism, patterns, unify, provenance, simplify, frontend, forwarding, guard, layer, instr, predicates, algid
+from . import trav, exh, backend, names, fields, compiler, memory, purity, determinism, patterns, unify, provenance, simplify, frontend, forwarding, guard, layer, instr, predicates, algid, windows
 
 
 def _trav_scoped(classes, name):
@@ -66,6 +66,7 @@ RULES = {
     "WINALIAS@bounds": frontend.rule_winalias_bounds,
     "NAMECONF": simplify.rule_nameconf,
     "DELGUARD": simplify.rule_delguard,
+    "WINCOMPOSE": windows.rule_wincompose,
     "MODGUARD": simplify.rule_modguard,
     "DIVACCOUNT": simplify.rule_divaccount,
     "CFGMOD": provenance.rule_cfgmod,
